@@ -169,3 +169,4 @@ Print Assumptions C11_map_by_val_built.
 Print Assumptions C11_from_fn_by_val_built.
 Print Assumptions C11_map_by_val_eq_std.
 Print Assumptions C11_from_fn_by_val_eq_std.
+Print Assumptions C11_map_value_eq_std_satisfiable.
